@@ -414,7 +414,6 @@ SEQUENCE_encode_oer(const asn_TYPE_descriptor_t *td,
                 }
             }
             ret = asn_put_few_bits(&preamble, has_extensions, 1);
-            assert(ret == 0);
             if(ret < 0) {
                 ASN__ENCODE_FAILED;
             }
@@ -444,7 +443,9 @@ SEQUENCE_encode_oer(const asn_TYPE_descriptor_t *td,
             }
         }
 
-        asn_put_aligned_flush(&preamble);
+        if(asn_put_aligned_flush(&preamble)) {
+            ASN__ENCODE_FAILED;
+        }
         computed_size += preamble.flushed_bytes;
     }   /* if(preamble_bits) */
 
@@ -523,7 +524,9 @@ SEQUENCE_encode_oer(const asn_TYPE_descriptor_t *td,
         }
         if(ret < 0) ASN__ENCODE_FAILED;
 
-        asn_put_aligned_flush(&extadds);
+        if(asn_put_aligned_flush(&extadds)) {
+            ASN__ENCODE_FAILED;
+        }
         computed_size += extadds.flushed_bytes;
 
         /* Now, encode extensions */
